@@ -4,7 +4,12 @@
 //! one canonical observation line per operation. The external harness feeds the same operation
 //! lines to an executable formal model and compares the observations.
 
-use std::collections::HashMap;
+use std::{
+    collections::HashMap,
+    sync::atomic::{AtomicUsize, Ordering},
+};
+
+pub mod c19;
 
 /// A component in a box, driven through the line protocol.
 pub trait VerifBox {
@@ -18,13 +23,14 @@ pub fn new_box(area: &str) -> Option<Box<dyn VerifBox>> {
         "c17" => Some(Box::new(
             crate::protocol::libp2p::kademlia::verif_c17::StoreBox::new(),
         )),
+        "c19" => Some(Box::new(c19::DecoderBox::new())),
         _ => None,
     }
 }
 
 /// Names of all adapters.
 pub fn areas() -> Vec<&'static str> {
-    vec!["c17"]
+    vec!["c17", "c19"]
 }
 
 /// Decode a hex string.
@@ -64,4 +70,41 @@ pub fn peer_index(p: &crate::PeerId) -> Option<u64> {
 /// Split `k=v` arguments.
 pub fn kv<'a>(args: &[&'a str]) -> HashMap<&'a str, &'a str> {
     args.iter().filter_map(|a| a.split_once('=')).collect()
+}
+
+/// Encode bytes as hex, `-` for the empty string.
+pub fn hexd(b: &[u8]) -> String {
+    if b.is_empty() {
+        "-".into()
+    } else {
+        hex(b)
+    }
+}
+
+/// Bytes currently allocated / high-water mark, maintained by the harness's counting global
+/// allocator (zero if none is installed).
+pub static ALLOC_CUR: AtomicUsize = AtomicUsize::new(0);
+pub static ALLOC_PEAK: AtomicUsize = AtomicUsize::new(0);
+
+/// Called by the harness allocator.
+pub fn alloc_note(size: usize) {
+    let cur = ALLOC_CUR.fetch_add(size, Ordering::Relaxed) + size;
+    ALLOC_PEAK.fetch_max(cur, Ordering::Relaxed);
+}
+
+/// Called by the harness allocator.
+pub fn dealloc_note(size: usize) {
+    ALLOC_CUR.fetch_sub(size, Ordering::Relaxed);
+}
+
+/// Start measuring: resets the high-water mark to the current level and returns that level.
+pub fn alloc_begin() -> usize {
+    let cur = ALLOC_CUR.load(Ordering::Relaxed);
+    ALLOC_PEAK.store(cur, Ordering::Relaxed);
+    cur
+}
+
+/// Peak number of bytes allocated above `base` since [`alloc_begin`].
+pub fn alloc_peak_since(base: usize) -> usize {
+    ALLOC_PEAK.load(Ordering::Relaxed).saturating_sub(base)
 }
